@@ -10,6 +10,7 @@ import (
 	"strings"
 	"unicode"
 
+	"github.com/apparentlymart/go-textseg/v15/textseg"
 	"github.com/hashicorp/hcl-lang/lang"
 	"github.com/hashicorp/hcl-lang/schema"
 	"github.com/hashicorp/hcl/v2"
@@ -276,18 +277,14 @@ func objectItemPrefixBasedEditRange(remainingRange hcl.Range, fileBytes []byte, 
 // columnWidth returns the number of columns (grapheme clusters, as counted
 // by HCL) which the given single-line bytes occupy.
 func columnWidth(b []byte) int {
-	if len(b) == 0 {
-		return 0
-	}
-	sc := hcl.NewRangeScanner(b, "", func(data []byte, atEOF bool) (int, []byte, error) {
-		if len(data) == 0 {
-			return 0, nil, nil
-		}
-		return len(data), data, nil
-	})
 	width := 0
-	for sc.Scan() {
-		width = sc.Range().End.Column - sc.Range().Start.Column
+	for len(b) > 0 {
+		advance, _, _ := textseg.ScanGraphemeClusters(b, true)
+		if advance <= 0 {
+			break
+		}
+		width++
+		b = b[advance:]
 	}
 	return width
 }
